@@ -132,16 +132,17 @@ def find_nearest_index_satisfying_monotonic_condition(arr: List[TrajectoryData],
     pos = bisect.bisect_left(BisectWrapper(arr, value_getter), target_value)
 
     # Compare neighbors to find the nearest index
+    if len(arr) == 0:
+        return -1
     if pos == 0:
         return 0
-    if pos == len(arr):
-        return len(arr) - 1
     before = pos - 1
     after = pos
-    if abs(value_getter(arr[before]) - target_value) <= abs(
+    if pos == len(arr) or abs(value_getter(arr[before]) - target_value) <= abs(
         value_getter(arr[after]) - target_value
     ):
-        return before
+        # several rows may share the nearest value below the target: return the smallest index among them
+        return bisect.bisect_left(BisectWrapper(arr, value_getter), value_getter(arr[before]))
     return after
 
 
@@ -186,6 +187,8 @@ def find_index_for_time_point(
         index = find_nearest_index_satisfying_monotonic_condition(
             shot.trajectory, time, lambda e: e.time
         )
+        if index < 0:
+            return -1
         if abs(shot.trajectory[index].time - time) <= max_time_deviation_in_seconds:
             return index
         return -1
